@@ -7,7 +7,8 @@
    extracted specification (judge13) on the implementation's output. *)
 From QV Require Import Spec.MsgWriterS.
 From QV Require Import Base.ListX Model.MsgWriter Proofs.MsgWriterP Proofs.MsgWriterScanP
-     Proofs.MsgWriterNameP Proofs.MsgWriterTabP Proofs.MsgWriterTopP.
+     Proofs.MsgWriterNameP Proofs.MsgWriterTabP Proofs.MsgWriterTopP Proofs.MsgWriterInvP
+     Proofs.MsgWriterClosP Proofs.MsgWriterNameSP Proofs.MsgWriterOpP Proofs.MsgWriterStepP.
 
 (* What is written for an owner name is either the plain wire form, or k leading labels and
    ONE pointer; the pointer leads strictly before the first octet of this name, to a label
@@ -72,6 +73,62 @@ Theorem c13_uncompressible_plain : forall n w pr w', write_uncompressed_name n w
   slice (w_buf w') (w_cursor w) (w_cursor w') = nm_wire n /\ w_cursor w' = w_cursor w + length (nm_wire n).
 Proof. exact uncompressed_plain. Qed.
 
+(* ---- the anchor invariant, for ALL operation sequences ------------------------------------
+   [L] is the ghost set of label starts of the names written so far; [NInv w h L] says: L is
+   closed under the decoding step, every step from a member reads only octets of [12, cursor)
+   outside the RDLENGTH field [h, h+2) of the record being written (so neither header writes nor
+   RDLENGTH back-patching nor later appends change what a member decodes to), every member
+   decodes, every pointer met leads strictly backwards to another member (a label, never a
+   pointer), and the three compression anchors are members. *)
+
+(* A name write under the invariant: never a panic; what is emitted is the plain wire form or
+   k < |n| labels plus ONE pointer whose target is a member of the OLD set L (a label start of a
+   name written earlier), strictly before this name; the invariant holds again for a set L' that
+   only gained offsets inside the octets just written; the PriorName handed back is a member. *)
+Theorem c13_owner_pointer_into_label_starts : forall hl h n w L, NInv w hl L -> wf_name n ->
+  hint_contract h n w -> hint_in h w L ->
+  match write_hinted_name h n w with
+  | Ok (pr, w') => emittedL n (w_buf w') (w_cursor w) (w_cursor w') L /\
+                   exists L', grew w w' L L' /\ NInv w' hl L' /\ (forall p, pr = Some p -> L' (p_ptr p))
+  | Err (e, _) => e = Truncation
+  | Panic => False
+  end.
+Proof. exact hinted_into_label_starts. Qed.
+
+Theorem c13_unhinted_pointer_into_label_starts : forall hl n w L, NInv w hl L -> wf_name n ->
+  match write_unhinted_name n w with
+  | Ok (pr, w') => emittedL n (w_buf w') (w_cursor w) (w_cursor w') L /\
+                   exists L', grew w w' L L' /\ NInv w' hl L' /\ (forall p, pr = Some p -> L' (p_ptr p))
+  | Err (e, _) => e = Truncation
+  | Panic => False
+  end.
+Proof. exact unhinted_into_label_starts. Qed.
+
+(* Every operation preserves the full invariant [AInv] (which contains NInv for the whole state,
+   the names every anchor and every live hint-vector slot stands for, and the QNAME anchor's
+   independence of everything at or above rr_start) -- in particular across the RDLENGTH
+   back-patch of add_rr, rollbacks of failed operations and clear_rrs. *)
+Theorem c13_anchor_invariant_all_ops : forall d g L o, AInv d g L -> op_wf o -> op_contract d g o ->
+  match step d o with
+  | Ok (d', r) => exists L', AInv d' (gstep d g o r) L'
+  | _ => False
+  end.
+Proof. exact step_ok_all. Qed.
+
+(* The finished message of ANY operation sequence obeying the hint contract: there is a set LF of
+   offsets in [12, len) that is closed under decoding inside the message: each member holds a label
+   length octet, the next position is a member or a pointer leading strictly backwards to a member,
+   and every member decodes to a name reading only the message body. *)
+Theorem c13_message_pointers_valid_partial : forall buf limit w0 ops, writer_new buf limit = Ok w0 ->
+  run_contract (mkD w0 []) g0 ops ->
+  exists rr, run_writer buf limit ops = Ok rr /\
+    match rr_final rr with
+    | Some (len, b) =>
+      exists LF, closed b header_size len (length b) LF /\ decodable b len LF /\ len <= length b
+    | None => True
+    end.
+Proof. exact run_writer_ok. Qed.
+
 (* Non-vacuity: after a question for "a." in a concrete buffer the hypotheses hold
    (QNAME anchor at offset 12), and writing "www.a." emits "www" + a pointer to offset 12. *)
 Definition ex_w : writer :=
@@ -124,3 +181,7 @@ Print Assumptions c13_disabled_unhinted.
 Print Assumptions c13_no_compressible_component.
 Print Assumptions c13_srv_ch_a_components.
 Print Assumptions c13_uncompressible_plain.
+Print Assumptions c13_owner_pointer_into_label_starts.
+Print Assumptions c13_unhinted_pointer_into_label_starts.
+Print Assumptions c13_anchor_invariant_all_ops.
+Print Assumptions c13_message_pointers_valid_partial.
